@@ -534,6 +534,8 @@ class Evaluator:
                     pass
             if isinstance(base, DictV) and key in base.d:
                 return base.d[key]
+            if isinstance(base, Rat) and key == vkey(fn('argmin', base)):
+                return fn('min', base)           # x[argmin(x)] = min(x)
             if isinstance(base, SymList) and base.lo is not None:
                 if key == '0':
                     return base.lo
